@@ -21,7 +21,11 @@ RULE = ('case = (structure family, one column, descriptions D, base lists B, obj
         '(interval family: on IntervalPS and IntervalNumpyPS both).  Exhaustive: every column of the tier scope with '
         'D = all descriptions on the value grid + None (+ single numbers), B = None + every ordered duplicate-free '
         'index list, O = every ordered duplicate-free index list; then seeded random columns up to 10 rows on scaled '
-        'dyadic grids; a separate malformed stream (0-row column, out-of-range indexes, non-descriptions, bad cells). '
+        'dyadic grids; a history stream (ONE object per engine: build, full observation, full observation again, '
+        '`ps.data = <other column of the same length>`, full observation, ... judged against the spec for the CURRENT '
+        'column after every step; exhaustive over all ordered pairs of distinct 2-row columns on small grids, then '
+        'random histories of 2-5 steps on columns up to 7 rows); '
+        'a separate malformed stream (0-row column, out-of-range indexes, non-descriptions, bad cells). '
         'non-trivial = column with >= 2 distinct values and at least one base list that is neither None nor a sorted '
         'prefix; distinct = distinct case (column, structure, D, B, O).  One "evaluation" is one column with its whole '
         'cross product (a 4-row interval column = 2 x 21 x 66 extension calls + 2 x 65 intention calls + binarisation).')
@@ -30,7 +34,10 @@ EXHAUSTIVE = {
              'descriptions (None, 4 numbers, 16 pairs incl. improper) x (None + all ordered base lists) x all ordered '
              'object lists x both engines; all input forms (x, [x], [x,x], int/float) for <= 2 rows; '
              'set: all columns <= 4 rows over the 8 subsets of {a,b,c} (4680) x (None + 8 subsets) x bases x object '
-             'lists; attribute: all boolean columns <= 4 rows x {False,True} x bases x object lists',
+             'lists; attribute: all boolean columns <= 4 rows x {False,True} x bases x object lists; '
+             'histories (build, observe, observe, ps.data = other column, observe, observe): all ordered pairs of distinct '
+             '2-row interval columns over {0,1,2} (1260), of 2-row set columns over the subsets of {a,b} (240), of '
+             'boolean columns with <= 3 rows (70)',
     'thorough': 'the quick scope, plus interval columns with 5 rows over {0,1,2} (6 values) and set columns with 5 rows '
                 'over the 4 subsets of {a,b}, with sorted and reversed base/object lists',
 }
@@ -38,7 +45,11 @@ EXPLANATION = ('extension_i and intention_i (non-empty A) outputs are pinned uni
                '!= Spec is a property failure; the implementation\'s intention_i outputs are additionally judged by the '
                'Lean checker Spec.PS.galoisOn (A inside ext(int A); ext(int A) inside ext(d) for every grid description d '
                'covering A).  Theorems Fca.C13.* prove model = Spec and the Galois laws for all inputs, and '
-               'numpy_eq_python for all inputs with >= 1 row.  Binary-attribute names are compared with '
+               'numpy_eq_python for all inputs with >= 1 row.  The model is a pure function of the current column '
+               '(no state), so "the answers depend on the current data only, never on earlier queries or earlier '
+               'columns" holds of it by construction; the history stream checks exactly that of the implementation: one '
+               'object is queried, re-queried, given `ps.data = column` and queried again, and every observation must '
+               'equal the spec/model value for the column it currently holds.  Binary-attribute names are compared with '
                'describe_pattern of the modelled description (string formatting done in this harness, trusted).')
 ASSUMPTIONS = ['a column has at least one row (DESIGN section 6); the 0-row column is only compared with the model '
                '(there IntervalNumpyPS raises IndexError where IntervalPS answers [] — outside the property\'s scope)',
@@ -265,8 +276,80 @@ def _malformed(tier, seed):
                    bases=[None] + oob(3), objs=[[]] + oob(3) + [[0] + [n]], bin=False)
 
 
+def _history(tier, seed, boost):
+    """ONE object per engine: build, observe, observe again (a query must not change later answers), then
+    `ps.data = <other column of the same length>`, observe, observe again, ...  Judged against the spec for the
+    CURRENT column after every step."""
+    big = tier == 'thorough' or boost
+
+    def two_step(ps, c0, c1, extra, grid):
+        ob = dict(descs=grid, bases='ALL', objs='ALL', bin=True)
+        hist = [dict(ob, col=c0, assign=True), dict(ob, col=c0, assign=False),
+                dict(ob, col=c1, assign=True), dict(ob, col=c1, assign=False)]
+        return dict(extra, stream='history', ps=ps, history=hist)
+
+    # exhaustive: every ordered pair of distinct 2-row columns (interval: 3-point grid; set: subsets of {a,b};
+    # attribute: booleans, also 3 rows)
+    ivc = [list(c) for c in itertools.product(_iv_values(3), repeat=2)]
+    for c0 in ivc:
+        for c1 in ivc:
+            if c0 != c1:
+                yield two_step('iv', c0, c1, dict(scale=1, num='int'), 'GRID3')
+    sc = [[list(v) for v in c] for c in itertools.product(_subsets(2), repeat=2)]
+    for c0 in sc:
+        for c1 in sc:
+            if c0 != c1:
+                yield two_step('set', c0, c1, dict(vals='str', form='set'), 'GRID2')
+    if big:
+        sc3 = [[list(v) for v in c] for c in itertools.product(_subsets(2), repeat=3)]
+        for c0 in sc3:
+            for c1 in sc3[::7]:
+                if c0 != c1:
+                    yield two_step('set', c0, c1, dict(vals='str', form='set'), 'GRID2')
+    for n in (1, 2, 3):
+        ac = [list(c) for c in itertools.product((0, 1), repeat=n)]
+        for c0 in ac:
+            for c1 in ac:
+                if c0 != c1:
+                    yield two_step('attr', c0, c1, dict(raw='bool'), 'GRID2')
+    # seeded random longer histories on larger columns
+    rng = random.Random(seed * 1000003 + 1515)
+    for _ in range((150 if tier == 'quick' else 2000) * (3 if boost else 1)):
+        n = rng.randint(2, 7)
+        steps = rng.randint(2, 5)
+        bases = [None, list(range(n))[::-1]] + _rand_lists(rng, n, 3)
+        objs = [[]] + _rand_lists(rng, n, 4, allow_empty=False) + [rng.sample(range(n), 2)]
+        span = rng.choice((2, 3, 6))
+
+        def iv_col():
+            col = []
+            for _i in range(n):
+                a, b = sorted((rng.randint(0, span), rng.randint(0, span)))
+                col.append(a if rng.random() < 0.4 else [a, b])
+            return col
+        k = rng.randint(2, 4)
+        dens = rng.choice((0.3, 0.5, 0.7))
+        makers = {
+            'iv': (iv_col, dict(scale=rng.choice((1, 2)), num='float'),
+                   [None, rng.randint(0, span)] + [sorted((rng.randint(0, span), rng.randint(0, span))) for _k in range(5)]),
+            'set': (lambda: [[v for v in range(k) if rng.random() < dens] for _i in range(n)],
+                    dict(vals=rng.choice(('str', 'int')), form=rng.choice(('set', 'list', 'frozenset'))),
+                    [None, [], list(range(k))] + [[v for v in range(k) if rng.random() < 0.5] for _k in range(4)]),
+            'attr': (lambda: [int(rng.random() < dens) for _i in range(n)], dict(raw='bool'), [0, 1]),
+        }
+        for ps, (mk, extra, descs) in makers.items():
+            hist, col = [], mk()
+            for st in range(steps):
+                assign = st == 0 or rng.random() < 0.65
+                if assign and st > 0:
+                    col = mk()
+                hist.append(dict(col=col, assign=assign, descs=descs, bases=bases, objs=objs, bin=rng.random() < 0.5))
+            yield dict(extra, stream='history', ps=ps, history=hist)
+
+
 def gen(tier, seed, boost=False):
     yield from _corpus()
+    yield from _history(tier, seed, boost)
     yield from _exhaustive(tier, boost)
     yield from _random(tier, seed, boost)
     yield from _malformed(tier, seed)
@@ -289,7 +372,21 @@ def _canon_num(x, scale):
     return int(v)
 
 
-def _impl_iv(c):
+def _obtain(state, key, cls, col, assign):
+    """The structure object for one phase: built fresh (no history / first phase), re-used untouched
+    (assign=False) or re-used after `ps.data = col` (the public setter of AbstractPS)."""
+    if state is None or key not in state:
+        ps = cls(col, 'x')
+        if state is not None:
+            state[key] = ps
+        return ps
+    ps = state[key]
+    if assign:
+        ps.data = col
+    return ps
+
+
+def _impl_iv(c, state=None):
     from fcapy.mvcontext.pattern_structure import IntervalPS, IntervalNumpyPS
     scale = c['scale']
     if scale == 1 and c.get('num') == 'int':
@@ -302,7 +399,7 @@ def _impl_iv(c):
     out = {}
     for eng, cls in (('py', IntervalPS), ('np', IntervalNumpyPS)):
         try:
-            ps = cls(list(col), 'x')
+            ps = _obtain(state, eng, cls, list(col), c.get('assign', True))
         except Exception as e:
             out[eng] = {'data': _err(e)}
             continue
@@ -364,11 +461,11 @@ def _set_codes(s, c):
     return sorted(int(v) for v in s)
 
 
-def _impl_set(c):
+def _impl_set(c, state=None):
     from fcapy.mvcontext.pattern_structure import SetPS
     conv = (lambda v: LETTERS[v]) if c['vals'] == 'str' else (lambda v: v)
     try:
-        ps = SetPS([_set_value(v, c) for v in c['col']], 'x')
+        ps = _obtain(state, 'set', SetPS, [_set_value(v, c) for v in c['col']], c.get('assign', True))
     except Exception as e:
         return {'data': _err(e)}
     o = {'data': [_set_codes(s, c) for s in ps._data]}
@@ -403,11 +500,11 @@ def _impl_set(c):
     return o
 
 
-def _impl_attr(c):
+def _impl_attr(c, state=None):
     from fcapy.mvcontext.pattern_structure import AttributePS
     col = [bool(v) for v in c['col']] if c['raw'] == 'bool' else list(c['col'])
     try:
-        ps = AttributePS(col, 'x')
+        ps = _obtain(state, 'attr', AttributePS, col, c.get('assign', True))
     except Exception as e:
         return {'data': _err(e)}
     o = {'data': [int(bool(v)) for v in ps._data]}
@@ -442,8 +539,21 @@ def _impl_attr(c):
     return o
 
 
+def _phases(c):
+    """A history case `{.., 'history': [phase, ..]}` walks ONE object per engine through the phases: phase 0 builds
+    it from its column, a later phase with assign=True does `ps.data = column` (same length), one with
+    assign=False leaves the object alone; every phase then makes the full observation.  Returns one ordinary
+    (expanded) case per phase."""
+    base = {k: v for k, v in c.items() if k != 'history'}
+    return [_expand(dict(base, **ph)) for ph in c['history']]
+
+
 def impl(c):
-    return {'iv': _impl_iv, 'set': _impl_set, 'attr': _impl_attr}[c['ps']](_expand(c))
+    f = {'iv': _impl_iv, 'set': _impl_set, 'attr': _impl_attr}[c['ps']]
+    if 'history' in c:
+        state = {}
+        return {'phases': [f(pc, state) for pc in _phases(c)]}
+    return f(_expand(c))
 
 
 # ------------------------------------------------------------------------------------------------ Lean side
@@ -457,6 +567,9 @@ def _lean_col(c):
 
 
 def requests(c, io):
+    if 'history' in c:
+        outs = io.get('phases') or []
+        return [requests(pc, outs[i] if i < len(outs) else {})[0] for i, pc in enumerate(_phases(c))]
     c = _expand(c)
     r = dict(op='C13.' + c['ps'], col=_lean_col(c), descs=c['descs'], bases=c['bases'], objs=c['objs'])
     if c['ps'] == 'iv':
@@ -547,7 +660,32 @@ def _check_bin(c, tag, o, model, in_scope, name_of, only_count=False):
     return None
 
 
+def _judge_history(c, io, rep):
+    phases = _phases(c)
+    for k, pc in enumerate(phases):
+        v = _judge(pc, io['phases'][k], [rep[k]])
+        if not v['ok']:
+            if k == 0:
+                return v
+            # the same call is right on a freshly built structure (phase 0 style cases cover that); here the
+            # object has a past: earlier queries and/or `ps.data = <column>`; the spec is evaluated on the
+            # CURRENT column only (the model is a pure function of it)
+            past = ' -> '.join(('data=' if ph.get('assign', True) else 'same object, ') + json.dumps(ph['col'])
+                               for ph in phases[:k + 1])
+            return dict(v, sig=v.get('sig', 'C13') + ':after-history',
+                        detail=(f'phase {k} of a history on ONE object ({past}; full observation after each step): '
+                                + v['detail'])[:900])
+    return dict(ok=True)
+
+
 def judge(c, io, rep):
+    if 'history' in c:
+        v = _judge_history(c, io, rep)
+        if not v['ok']:
+            io.clear()
+            io['pruned'] = 'see verdict.detail; replay the case for the full output'
+            rep[:] = [{'pruned': True}]
+        return v
     c = _expand(c)
     v = _judge(c, io, rep)
     if not v['ok'] and len(c['descs']) * len(c['bases']) + len(c['objs']) > 40:
@@ -630,6 +768,9 @@ def _distinct_vals(c):
 
 
 def nontrivial(c):
+    if 'history' in c:
+        cols = {json.dumps(ph['col']) for ph in c['history']}
+        return len(cols) >= 2 and any(nontrivial(pc) for pc in _phases(c))
     c = _expand(c)
     n = len(c['col'])
     if _distinct_vals(c) < 2:
@@ -642,6 +783,9 @@ def key(c):
 
 
 def branch(c, io, rep):
+    if 'history' in c:
+        return [c['stream'], f"{c['ps']}:history:phases={len(c['history'])}",
+                f"{c['ps']}:history:assignments={sum(1 for ph in c['history'][1:] if ph.get('assign', True))}"]
     c = _expand(c)
     ks = [c['stream'], f"{c['ps']}:n={len(c['col'])}"]
     if c['ps'] == 'iv' and rep and isinstance(rep[0].get('data'), list):
@@ -668,7 +812,46 @@ def _drop_row(c, i):
     return d
 
 
+def _shrink_history(c):
+    hist = [dict(ph) for ph in c['history']]
+    # fewer phases (dropping phase 0 makes the next column the one the object is built from)
+    if len(hist) > 1:
+        for i in range(len(hist)):
+            h = hist[:i] + hist[i + 1:]
+            h[0] = dict(h[0], assign=True)
+            yield dict(c, history=h)
+    if len(hist) == 1:
+        yield {k: v for k, v in dict(c, **hist[0]).items() if k not in ('history', 'assign')}
+        return
+    # fewer calls inside a phase
+    n = len(hist[0]['col'])
+    for i, ph in enumerate(hist):
+        pe = _expand(dict({k: v for k, v in c.items() if k != 'history'}, **ph))
+        for k in ('descs', 'bases', 'objs'):
+            xs = pe[k]
+            if len(xs) > 1:
+                h = len(xs) // 2
+                for part in (xs[:h], xs[h:]):
+                    yield dict(c, history=hist[:i] + [dict(ph, **{k: part})] + hist[i + 1:])
+            elif len(xs) == 1 and i < len(hist) - 1:
+                yield dict(c, history=hist[:i] + [dict(ph, **{k: []})] + hist[i + 1:])
+        if ph.get('bin'):
+            yield dict(c, history=hist[:i] + [dict(ph, bin=False)] + hist[i + 1:])
+    # one row less in every column
+    if n > 1:
+        for r in range(n):
+            h = []
+            for ph in hist:
+                pe = _expand(dict({k: v for k, v in c.items() if k != 'history'}, **ph))
+                d = _drop_row(pe, r)
+                h.append(dict(ph, col=d['col'], descs=pe['descs'], bases=d['bases'], objs=d['objs']))
+            yield dict(c, history=h)
+
+
 def shrink(c):
+    if 'history' in c:
+        yield from _shrink_history(c)
+        return
     c = _expand(c)
     for k in ('descs', 'bases', 'objs'):
         xs = c[k]
